@@ -254,11 +254,18 @@ class RunLab(object):
         st.elem_kind = {}
         st.order = []
 
+        def sname(x):
+            # an internal exception while reading a status is an observation, not a reason to stop monitoring
+            try:
+                return x.status.name
+            except Exception as ex:
+                return "EXCEPTION %s" % type(ex).__name__
+
         def scen(s):
-            st.elem_status[s.name] = s.status.name
+            st.elem_status[s.name] = sname(s)
             st.elem_kind[s.name] = "scenario"
             steps = list(s.all_steps)
-            st.step_status[s.name] = [x.status.name for x in steps]
+            st.step_status[s.name] = [sname(x) for x in steps]
             st.step_names[s.name] = [x.name for x in steps]
             st.order.append(s.name)
 
@@ -267,15 +274,15 @@ class RunLab(object):
                 if isinstance(it, self.Rule):
                     st.elem_kind[it.name] = "rule"
                     walk(it)
-                    st.elem_status[it.name] = it.status.name
+                    st.elem_status[it.name] = sname(it)
                 elif isinstance(it, self.ScenarioOutline):
                     st.elem_kind[it.name] = "outline"
                     for s in it.scenarios:
                         scen(s)
-                    st.elem_status[it.name] = it.status.name
+                    st.elem_status[it.name] = sname(it)
                 else:
                     scen(it)
         for f in st.features or []:
             st.elem_kind[f.name] = "feature"
             walk(f)
-            st.elem_status[f.name] = f.status.name
+            st.elem_status[f.name] = sname(f)
